@@ -1126,10 +1126,15 @@ class PyCdlib:
                     # The entries that identify the Rock Ridge version may
                     # have been in the Continuation Area.
                     rr = new_record.rock_ridge.rr_version
-                    block = self.pvd.track_rr_ce_entry(ce_record.bl_cont_area,
-                                                       ce_record.offset_cont_area,
-                                                       ce_record.len_cont_area)
-                    new_record.rock_ridge.update_ce_block(block)
+                    if not (dir_record.is_root and new_record.is_dot()):
+                        # The Continuation Area of the root 'dot' record (the
+                        # ER sector) always gets an extent of its own when
+                        # extents are assigned, so it must not also be tracked
+                        # as one of the shared Continuation Blocks.
+                        block = self.pvd.track_rr_ce_entry(ce_record.bl_cont_area,
+                                                           ce_record.offset_cont_area,
+                                                           ce_record.len_cont_area)
+                        new_record.rock_ridge.update_ce_block(block)
 
                 self._set_rock_ridge(rr)
 
